@@ -24,12 +24,17 @@ type Runner struct {
 	Progs map[string]bool // programs compiled in
 	// BuildErrors: compiler output attributed to programs that had to be left out
 	BuildErrors map[string]string
+
+	startupReported bool // a crash before the first job was reported (once per runner)
 }
 
 var reBuildErrFile = regexp.MustCompile(`(?m)^((?:\.\./)*)([\w./-]+?)/([\w.-]+\.go):(\d+):(\d+): (.*)$`)
 
 // BuildRunner compiles one runner binary for the given programs. Programs whose
 // package does not compile are left out (reported in BuildErrors) and the build is retried.
+// a frame of generated code in a crash trace: .../synth/<prog>/zz_gen_<target>.go
+var reStartupFrame = regexp.MustCompile(`synth/([a-z]\w*)/(zz_gen_\w+\.go)`)
+
 func (pl *Pipeline) BuildRunner(ready []string) *Runner {
 	rn := &Runner{pl: pl, Progs: map[string]bool{}, BuildErrors: map[string]string{}}
 	progs := append([]string(nil), ready...)
@@ -144,6 +149,21 @@ func (rn *Runner) Run(jobs []runlib.Job, handle func(runlib.Event)) {
 				}
 				if res.TimedOut {
 					rn.pl.Rep.Inconclusive("runner process %d watchdog fired during %s %s %s", w, last.Prog, last.Cmd, last.What)
+					return
+				}
+				if last.Prog == "" && doneJobs == 0 && !bailed {
+					// the process died before its first job: package initialisation of the compiled-in
+					// (generated) code. Attribute it to the program whose generated file is on the stack.
+					mu.Lock()
+					if !rn.startupReported {
+						rn.startupReported = true
+						if m := reStartupFrame.FindStringSubmatch(res.Out); m != nil && rn.pl.ByID[m[1]] != nil {
+							handle(runlib.Event{Prog: m[1], Kind: "abort", Cmd: batch[0].Cmd, What: "process start (package initialisation of " + m[2] + ")", Message: core.Trunc(res.Out, 5000)})
+						} else {
+							rn.pl.Rep.Inconclusive("runner process died at start-up and the crash cannot be attributed to a program:\n%s", core.Trunc(res.Out, 3000))
+						}
+					}
+					mu.Unlock()
 					return
 				}
 				if !bailed {
